@@ -22,6 +22,7 @@ var verifEntries = map[string]func(int){
 	"Verif_C15_VDefrag":    Verif_C15_VDefrag,
 	"Verif_C11_OverBudget": Verif_C11_OverBudget,
 	"Verif_C15_VReuse":     Verif_C15_VReuse,
+	"Verif_C11_Race":       Verif_C11_Race,
 	"Verif_C12_Pairs":      Verif_C12_Pairs,
 	"Verif_C19_Fallback":   Verif_C19_Fallback,
 }
